@@ -182,7 +182,7 @@ CHECKS = {
         level="exploration",
         quick=NATIVE, thorough=NATIVE + [("fresh", 1.0, {"only": "fresh"})],
         rule="cases: (type, value) across 5 sinks + size calculator; (buffer, read sequence) across 3 inputs; distinct by (type, bytes) / (buffer, ops)",
-        floors={"any": {"entry_points_with_exactly_one_pass": 5, "totals_beyond_2_pow_32_exact": 7, "all_sinks_agree_and_size_exact": 10000, "input_sequences_agree": 10000, "big_values_ok": 50}},
+        floors={"any": {"entry_points_with_exactly_one_pass": 5, "totals_beyond_2_pow_32_exact": 7, "all_sinks_agree_and_size_exact": 10000, "input_sequences_agree": 10000, "big_values_ok": 50, "write_sequences_agree_on_every_sink": 10000}},
     ),
     "C16": dict(
         claim="Fault enumeration on compressed frames: contents (zero, random, periodic, text, mixed) x sizes 0 .. 1 MiB (16 MiB thorough) x levels 0-9 x both sinks x all three sources with trailing data: frame == varint(len d) ++ varint(len z) ++ z with z inflating to d (checked with an independent inflate), following bytes intact; every truncation of frames <= 4 KiB is an error; every single-bit flip of small frames, random flips of large ones and header rewrites give Ok or Err, no panic, and no single allocation request above max(64 KiB, 2 x bytes actually produced) (allocation monitor). Frames are also written by a user codec through SerializationContext (straight to the sink, into a chunk buffer, through a size-calculating context) and read back from inside input regions; every bit of the first four bytes of each deflate stream is flipped.",
